@@ -52,6 +52,10 @@ def run(facts, tr, rep):
                         helpers[k.def_] = (k, a.into_bb)
                         rep.saw(k)
     bodies = [b] + [k for (k, _bb) in helpers.values()]
+    # ---------------------------------------------------------------- no panicking deadline arithmetic
+    allb = [sb] + [d for d in descendants(facts, sb)] + [d2 for (k, _bb) in helpers.values() for d2 in [k] + descendants(facts, k)]
+    nops = check_no_panicking_time_arith(facts, tr, rep, "C06.NO-PANIC-ARITH", {x.def_: x for x in allb}.values())
+    rep.note("panicking Instant/Duration operators in the call path: %d" % nops)
     sites = inner_calls(facts, sb)
     for (k, _bb) in helpers.values():
         for d in descendants(facts, k):
@@ -98,9 +102,29 @@ def run(facts, tr, rep):
                "the background task is spawned exactly when cancel_running_future is false" if fe is False else
                "spawn is not confined to cancel_running_future == false (dominating flag edge: %s)" % fe)
     # duration origin helper
-    def is_request_timeout(node):
+    def is_request_timeout(node, _d=0):
+        """the request's timeout itself, or (for timeout_at / sleep_until) the deadline now() + that timeout"""
         node = tr.expand(node, upvars=True, params=True)
-        return bool(calls_in(tr, node, lambda x: x.name == "get_timeout")) and peel(node)[0] == "call"
+        pn = peel(node)
+        if pn[0] == "call" and tr.call_of(pn).name == "get_timeout":
+            return True
+        if _d > 2:
+            return False
+        # deadline forms: Instant::now() + d, Instant::now().checked_add(d) -> Some(deadline)
+        for lf in leaves(node):
+            lf = peel(lf)
+            while lf[0] in ("field", "downcast"):
+                lf = peel(lf[1])
+            if lf[0] != "call":
+                return False
+            c2 = tr.call_of(lf)
+            if c2.name not in ("checked_add", "add") or len(c2.args) != 2:
+                return False
+            a0 = tr.expand(tr.operand(c2.g.b, c2.args[0], c2.loc), upvars=True)
+            a1 = tr.expand(tr.operand(c2.g.b, c2.args[1], c2.loc), upvars=True)
+            if not calls_in(tr, a0, lambda x: x.name == "now") or not is_request_timeout(a1, _d + 1):
+                return False
+        return True
     # ---------------------------------------------------------------- CANCEL
     for n, (bd, c) in enumerate(timeouts):
         gd_ = graph(bd)
